@@ -77,6 +77,11 @@ func (c19) Gen(seed uint64, idx int, tier string) *Scenario {
 		sc.GateOut = r.Chance(1, 3)
 		sc.Bias = prng.Pick(r, Biases)
 	}
+	if len(sc.Src) > 1500 {
+		// the trace prints the whole stack before every instruction, one write per value:
+		// keep big programs off the output gate so that runs stay within the step bound
+		sc.GateOut = false
+	}
 	return sc
 }
 
